@@ -697,6 +697,28 @@ func (e *Env) call(n *ast.CallExpr) Val {
 			return scalar(bt, and(eq(a.Sub[0].S, b.Sub[0].S), eq(a.Sub[1].S, b.Sub[1].S)))
 		case "ghost":
 			return e.ghost(n)
+		case "ghostat":
+			return e.ghostat(n)
+		case "clz64", "ctz64":
+			e.nargs(n, 1)
+			v := t.materialize(e.eval(n.Args[0]), types.Typ[types.Uint64])
+			if v.K != VScalar || t.mode != ModeBV {
+				e.fail("clz64/ctz64 need a bit-vector uint64")
+			}
+			// ite chain over the 64 bit positions, result as uint8
+			res := t.mode.intLit64(64, 8)
+			for k := 0; k < 64; k++ {
+				// clz: scan from bit 0 upwards so that the highest set bit wins last; ctz: from bit 63 downwards
+				bit := k
+				cnt := 63 - k
+				if id.Name == "ctz64" {
+					bit = 63 - k
+					cnt = 63 - k
+				}
+				isSet := eq(sx(fmt.Sprintf("(_ extract %d %d)", bit, bit), v.S), "#b1")
+				res = ite(isSet, t.mode.intLit64(int64(cnt), 8), res)
+			}
+			return scalar(types.Typ[types.Uint8], res)
 		case "uf":
 			return e.uf(n)
 		}
@@ -765,6 +787,32 @@ func (e *Env) ghost(n *ast.CallExpr) Val {
 	srt := t.mode.scalarSort(gt)
 	arr := t.heapGet(e.st, "G."+name, arraySort("Int", srt))
 	return scalar(gt, sx("select", arr, o.S))
+}
+
+// ghostat(obj, idx, "name"): element idx of a ghost sequence attached to obj.
+func (e *Env) ghostat(n *ast.CallExpr) Val {
+	e.nargs(n, 3)
+	t := e.t
+	o := e.eval(n.Args[0])
+	if o.K == VConst {
+		o = scalar(nil, "0")
+	}
+	if o.K == VScalar && o.T != nil {
+		// an integer-valued ghost (stream id) may be used as the object
+		if _, _, isInt := intInfo(o.T); isInt && t.mode == ModeBV {
+			o = scalar(nil, sx("bv2nat", o.S))
+		}
+	}
+	i, ok := t.toIdx(e.eval(n.Args[1]))
+	lit, ok2 := n.Args[2].(*ast.BasicLit)
+	if !ok || !ok2 || o.K != VScalar {
+		e.fail("ghostat(obj, index, \"name\") expects an object, an integer index and a string literal")
+	}
+	name, _ := strconv.Unquote(lit.Value)
+	gt := t.W.ghostType(name)
+	srt := arraySort("Int", arraySort(t.mode.idxSort(), t.mode.scalarSort(gt)))
+	arr := t.heapGet(e.st, "GA."+name, srt)
+	return scalar(gt, sx("select", sx("select", arr, o.S), i))
 }
 
 // uf("name", args...) : uninterpreted function over scalar arguments with a
